@@ -54,6 +54,7 @@ def quotes_reach(facts, c, h, node, depth=2):
 def run(facts, rep, tier):
     c = facts.impl
     run_d5(facts, rep)
+    run_d6(facts, rep)
     gsa = [h for h in c.user_fns() if h["fn"].endswith("generate_serde_attr")]
     if not gsa:
         # by role: the fn whose templates contain skip_serializing_if
@@ -228,3 +229,39 @@ def run_d5(facts, rep):
             rep.ob("C03.D5", "set-keeps-order", ok, "Set(T) is rendered `%s`" % ts[0] if ok else
                    "a uniqueItems array is rendered as %s: a sorted or hashed set reorders the elements of a JSON array, so the instance does not round-trip to an equal value" % ts, a.get("sp"))
     rep.floor("C03.D5", "Set arm of the type renderer", n_, 1)
+
+
+# ---------------------------------------------------------------- D6 a variant's wire name is the schema's own string
+CASE_CALLS = re.compile(r"\b(sanitize|to_case|to_pascal_case|to_snake_case|to_upper_camel_case|to_lowercase|to_uppercase|to_ascii_lowercase|to_ascii_uppercase|recase)\(")
+
+
+def run_d6(facts, rep):
+    """`Variant::new(raw_name, ..)`: raw_name is what serde compares with the tag / key on the wire (it becomes the rename).
+    Wherever the enum is tagged (the name is data of the instance), the argument must be the schema's constant string as it
+    stands; a parameter is followed to the arguments of the callers."""
+    from lib import Canon, param_sources, scope_binding, strip_refs, _anc_index
+    c = facts.impl
+    n = 0
+    for h in c.user_fns():
+        body_txt = None
+        cn = None
+        for x, anc in walk(h["body"]):
+            if not (x.get("k") == "call" and (x.get("fn") or "").endswith("Variant::new") and x.get("args")):
+                continue
+            if any(y.get("k") == "path" and str(y.get("path", "")).endswith("EnumTagType::Untagged") for y, _ in walk(h["body"])):
+                continue  # untagged: variant names never reach the wire
+            n += 1
+            cn = cn or Canon(c, h, 4)
+            texts = [cn.r(x["args"][0])]
+            # follow parameters to the callers' arguments
+            for y, _ in walk(x["args"][0]):
+                if y.get("k") == "path" and y.get("res") == "local":
+                    b = scope_binding(h, _anc_index(h).get(id(y), ()), y["path"], y)
+                    if b and b[0] == "param":
+                        for hh, arg in param_sources(c, h["fn"], b[1]):
+                            texts.append(Canon(c, hh, 4).r(arg))
+            bad = [t for t in texts if CASE_CALLS.search(t)]
+            key = "%s#%d" % (h["fn"], sum(1 for o in rep.obligations if o["key"].startswith("C03.D6/variant-wire-name-is-raw:%s#" % h["fn"])))
+            rep.ob("C03.D6", "variant-wire-name-is-raw:" + key, not bad, "the variant's wire name is the schema's string as written" if not bad else
+                   "the variant's wire name is `%s`: it has been through a case conversion / sanitiser, so the tag value or key on the wire no longer matches and valid instances are rejected" % bad[0][:140], x.get("sp"))
+    rep.floor("C03.D6", "tagged-variant constructions", n, 6)
